@@ -1,7 +1,7 @@
 #!/bin/bash
 # usage: tools/seed_eval2.sh <worktree name under /tmp/mut> <Cxx> <A|B (file in out/)> <label for seeded dir, e.g. C> <demo placement path> <crate> [extra props…]
 wt=$1; id=$2; X=$3; L=$4; demo=$5; crate=$6; shift 6
-W=/tmp/mut/$wt; D=/verif/seeded/$id-$L
+W=/tmp/mutw/$wt; D=/verif/seeded/$id-$L
 mkdir -p $D
 cp $W/out/$X.diff $D/patch.diff; cp $W/out/demo_$X.rs $D/demo.rs
 /verif/tools/confirm_mutant.sh $W $X $demo -p $crate --test demo_$X > $D/confirm.log 2>&1
